@@ -33,7 +33,7 @@ pub struct C15Case {
 }
 
 /// Package "a" with n candidates, revealed through union requirements `(z | a-subset)` in a random
-/// partition and order (variant 0: no reveal; 1: in order; 2: shuffled; 3: overlapping groups).
+/// partition and order (variant 0: no reveal; 1: in order; 2: shuffled; 3: overlapping groups; 4: unions listing two overlapping ranges of the package).
 pub fn build(r: &mut Rng, n: u32, variant: u64) -> (Universe, Vec<Req>, Vec<u32>) {
     let mut u = Universe::default();
     for v in 1..=n {
@@ -50,11 +50,19 @@ pub fn build(r: &mut Rng, n: u32, variant: u64) -> (Universe, Vec<Req>, Vec<u32>
         while lo <= n {
             let hi = (lo + 1 + r.below(6) as u32).min(n + 1);
             let v = if variant == 3 && lo > 1 { u.vs("a", lo - 1, hi) } else { u.vs("a", lo, hi) };
-            let un = u.union(vec![vz, v]);
+            // variant 4: the union lists two overlapping ranges of the package itself (a candidate
+            // is revealed twice by one requirement)
+            let un = if variant == 4 {
+                let mid = lo + (hi - lo) / 2;
+                let v2 = u.vs("a", mid, (hi + 1).min(n + 1));
+                if r.chance(1, 2) { u.union(vec![v, v2, vz]) } else { u.union(vec![vz, v2, v]) }
+            } else {
+                u.union(vec![vz, v])
+            };
             reveal.push(Req::Union(un));
             lo = hi;
         }
-        if variant >= 2 {
+        if variant == 2 || variant == 3 {
             r.shuffle(&mut reveal);
         }
     }
@@ -92,7 +100,7 @@ impl Monitor for C15 {
             1 => 120 + r.below(20) as u32,
             _ => 2 + r.below(259) as u32,
         };
-        let variant = r.below(4);
+        let variant = r.below(5);
         let (u, reveal, singles) = build(r, n, variant);
         let mut pairs = vec![];
         for _ in 0..30 {
@@ -371,7 +379,7 @@ impl Monitor for C15 {
         let nmax = tier.pick(24u32, 40u32);
         let mut job = 0u64;
         for n in 1..=nmax {
-            for variant in 0..4u64 {
+            for variant in 0..5u64 {
                 job += 1;
                 if job % nshards != shard {
                     continue;
@@ -398,6 +406,6 @@ impl Monitor for C15 {
                 }
             }
         }
-        ctx.rep.notes.insert(format!("exhaustive subset: all pairs and singles for n = 1..={nmax}, 4 reveal variants"));
+        ctx.rep.notes.insert(format!("exhaustive subset: all pairs and singles for n = 1..={nmax}, 5 reveal variants"));
     }
 }
